@@ -50,12 +50,35 @@ end
 
 def isNilVal : Val → Bool | .nil => true | _ => false
 
+/-- Go `strconv.FormatFloat(x, 'g', -1, 64)` / `%#v` text (`-2.5`, `9.9990915e+08`, `1e-02`) → quarters,
+    when the value is a multiple of 0.25 -/
+def parseGoFloat (s : String) : Option Int :=
+  let (neg, body) := if s.startsWith "-" then (true, (s.drop 1).toString) else (false, s)
+  let (mant, exp) : String × Option Int := match body.splitOn "e" with
+    | [m] => (m, some 0)
+    | [m, e] => (m, (if e.startsWith "+" then (e.drop 1).toString else e).toInt?)
+    | _ => (body, none)
+  let (digits, fracLen) : String × Nat := match mant.splitOn "." with
+    | [w] => (w, 0)
+    | [w, f] => (w ++ f, f.length)
+    | _ => ("x", 0)
+  match digits.toNat?, exp with
+  | some m, some e =>
+    let sh : Int := e - fracLen
+    let q : Option Int :=
+      if sh ≥ 0 then some (Int.ofNat (m * 4 * 10 ^ sh.toNat))
+      else
+        let d := 10 ^ (-sh).toNat
+        if (m * 4) % d = 0 then some (Int.ofNat (m * 4 / d)) else none
+    q.map fun x => if neg then -x else x
+  | _, _ => none
+
 mutual
 def valToPy : Val → Option PyVal
   | .nil => some .none
   | .bool b => some (.bool b)
   | .int _ n => some (.num (n * 4))
-  | .float _ r => (Json.parseNum r).map .num     -- `%#v` of a float64: plain decimals only
+  | .float _ r => (parseGoFloat r).map .num       -- `%#v` of a float64
   | .jnum s => some (.str s)                     -- `%#v` of a json.Number is a quoted string
   | .str s => some (.str s)
   | .list xs => (valsToPy xs).map .list
@@ -222,9 +245,27 @@ def branchPkg (bs : List Ty) (name : String) : Option String :=
   | some (.ref p _ _) => some p
   | _ => none
 
-def pyFromJson : Nat → Schemas → Ty → Json → DRes PyVal
-  | 0, _, _, _ => .fuel
-  | fuel + 1, ss, t, j =>
+/-- `E[key]…[key]` (n subscripts) evaluated with `key = k` -/
+def subscripts (k : String) : Nat → Json → DRes Json
+  | 0, e => .ok e
+  | n + 1, e =>
+    match e with
+    | .obj ms =>
+      match Json.lookup k ms with
+      | some x => subscripts k n x
+      | none => .err                                  -- KeyError
+    | _ => .err                                       -- not subscriptable / indices must be integers
+
+/- `ctx`: how the generated code spells the value being decoded.  `none`: an expression whose value
+   is `j` wherever it is evaluated (`data["k"]`, `item`).  `some (E, n)`: the expression is
+   `E[key]…[key]` (n subscripts) inside a dict comprehension `for key in ….keys()`.  The difference
+   matters for a map nested directly in a map: `fromJSONForType` names every comprehension variable
+   `key`, so in `{key: {key: D(E[key][key]) for key in E[key].keys()} for key in E.keys()}` the inner
+   body reads `E[inner][inner]`, not `E[outer][inner]` (only the iterable `E[key].keys()` is evaluated
+   with the outer binding). -/
+def pyFromJson : Nat → Schemas → Ty → Option (Json × Nat) → Json → DRes PyVal
+  | 0, _, _, _, _ => .fuel
+  | fuel + 1, ss, t, ctx, j =>
     match t with
     | .ref pkg name _ =>
       match Schemas.locateObject ss pkg name with
@@ -232,19 +273,22 @@ def pyFromJson : Nat → Schemas → Ty → Json → DRes PyVal
       | some o =>
         match o.ty with
         | .struct fields _ _ _ =>
-          classFromJsonWith (pyFromJson fuel ss) (fun t' => pyDefault fuel ss t' (overridesOf t')) fields j
-        | other => pyFromJson fuel ss other j
+          classFromJsonWith (fun t' => pyFromJson fuel ss t' none) (fun t' => pyDefault fuel ss t' (overridesOf t')) fields j
+        | other => pyFromJson fuel ss other ctx j
     | .array e _ =>
       if e.isScalar then .ok (PyVal.ofJson j)
       else match j with
-        | .arr xs => (mapRes (pyFromJson fuel ss e) xs).map .list
+        | .arr xs => (mapRes (pyFromJson fuel ss e none) xs).map .list
         | .null | .bool _ | .num _ => .err            -- not iterable
         | _ => .unsup "iteration over a str/dict"
     | .map _ v _ =>
       if v.isScalar then .ok (PyVal.ofJson j)
       else match j with
         | .obj kvs =>
-          (mapRes (fun (kv : String × Json) => (pyFromJson fuel ss v kv.2).map fun x => (kv.1, x)) kvs).map .dict
+          let base : Json × Nat := ctx.getD (j, 0)
+          (mapRes (fun (kv : String × Json) =>
+            (subscripts kv.1 (base.2 + 1) base.1).bind fun z =>
+              (pyFromJson fuel ss v (some (base.1, base.2 + 1)) z).map fun x => (kv.1, x)) kvs).map .dict
         | _ => .err                                   -- no attribute 'keys'
     | .disj bs info _ =>
       if info.discriminator == "" || info.mapping.isEmpty then .ok (PyVal.ofJson j)
@@ -268,7 +312,7 @@ def pyFromJson : Nat → Schemas → Ty → Json → DRes PyVal
             | some tn =>
               match branchPkg bs tn with
               | none => .unsup "mapping target is not a branch"
-              | some p => pyFromJson fuel ss (.ref p tn {}) j
+              | some p => pyFromJson fuel ss (.ref p tn {}) none j
         | _ => .err                                   -- not subscriptable / indices must be integers
     | .scalar .. => .ok (PyVal.ofJson j)
     | .enum .. => .ok (PyVal.ofJson j)
@@ -276,7 +320,7 @@ def pyFromJson : Nat → Schemas → Ty → Json → DRes PyVal
 
 /-- what the lab driver's `roundtrip` does: `dumps(X.from_json(loads(doc)), cls=JSONEncoder)` -/
 def pyRoundTrip (fuel : Nat) (ss : Schemas) (pkg name : String) (j : Json) : DRes Json :=
-  if wfJson j then (pyFromJson fuel ss (.ref pkg name {}) j).map pyToJson
+  if wfJson j then (pyFromJson fuel ss (.ref pkg name {}) none j).map pyToJson
   else .unsup "duplicate keys"
 
 end Cog.Sem
